@@ -60,22 +60,42 @@ Lemma gen_skip_minimal :
     (filter (fun c => negb (c =? 0)) all_byte_values)) all_states = true.
 Proof. vm_compute. reflexivity. Qed.
 
+(* the third finite obligation: the events one dispatch emits (TriviaCheck.pend_ok); the phase typing is inferred by
+   evaluation (untrusted) and then checked *)
+Definition gen_ph_tbl : list (list N) := Eval vm_compute in infer_ph gen_typing.
+Definition gen_ph : N -> state -> N := ph_of gen_ph_tbl.
+Lemma gen_pend_ok : pend_ok gen_typing gen_ph = true.
+Proof. vm_compute. reflexivity. Qed.
+
 (* ---------------------------------------------------------------------------------------------- *)
-(* the theorem: when the scan reaches the end of the file with no lexeme half open and no event pending, every byte
-   of the input is inside a lexeme, or was consumed in a state that may skip it (consume_trace = the (position,
-   state) pairs the byte loop of Next() went through), or is the '*' of a closing '*/' *)
+(* the theorem: when the scan reaches the end of the file, every byte of the input is inside a lexeme, or was consumed
+   in a state that may skip it (consume_trace = the (position, state) pairs the byte loop of Next() went through), or
+   is the '*' of a closing '*/' *)
 Definition skipped (jsc_len enum_len : bytes -> len_result) (data : bytes) (p : N) : Prop :=
   SJ gen_skip data (consume_trace jsc_len enum_len data) p.
 
 Theorem no_content_dropped_lemma jsc_len enum_len data :
   len_sane jsc_len -> len_sane enum_len -> Forall isb data ->
   forall lexs g, scan jsc_len enum_len data = (lexs, SEof, g) ->
-  estk g = [] -> finds g = [] ->
   forall p, p < N.of_nat (List.length data) ->
     (exists l, In l lexs /\ lb l <= p /\ p <= le l) \/ skipped jsc_len enum_len data p.
 Proof.
-  intros H1 H2 H3 lexs g Hs He Hf p Hp.
-  exact (scan_cover_generic gen_typing gen_skip jsc_len enum_len data gen_table_ok gen_trivia_ok H1 H2 H3 lexs g Hs He Hf p Hp).
+  intros H1 H2 H3 lexs g Hs p Hp.
+  exact (scan_cover_generic gen_typing gen_skip gen_ph gen_table_ok gen_trivia_ok gen_pend_ok
+           jsc_len enum_len H1 H2 data H3 lexs g Hs p Hp).
+Qed.
+
+(* what is left on the event stack at the end of the file: nothing, or one Begin placed AT the end of the file, whose
+   lexeme covers no byte (it is never handed out: after "Description // x" at the very end of the file the empty Text
+   lexeme that a final line end would produce is missing; no byte of the input is lost with it) *)
+Theorem eof_stack_covers_nothing_lemma jsc_len enum_len data :
+  len_sane jsc_len -> len_sane enum_len -> Forall isb data ->
+  forall lexs g, scan jsc_len enum_len data = (lexs, SEof, g) ->
+  estk g = [] \/ exists e, estk g = [(e, N.of_nat (List.length data))].
+Proof.
+  intros H1 H2 H3 lexs g Hs.
+  exact (scan_eof_stack_generic gen_typing gen_skip gen_ph gen_table_ok gen_trivia_ok gen_pend_ok
+           jsc_len enum_len H1 H2 data H3 lexs g Hs).
 Qed.
 
 (* what a skipped byte can be, independently of the scanner state: a blank, a line end, '#', an annotation
@@ -153,3 +173,19 @@ Definition dropped_regex_data : bytes := bs "GET /a" ++ [10] ++ bs "200 regex" +
 Example regex_backslash_at_eof_rejected :
   match snd (fst (scan no_body no_body dropped_regex_data)) with SErr _ _ => True | _ => False end.
 Proof. vm_compute. exact I. Qed.
+
+(* the events lost at the end of the file: "URL /a / Description // x" without a final line end.  The end of the file
+   ends the annotation and re-dispatches to the description state, which opens and closes an EMPTY Text lexeme at the
+   end of the file; Next() hands out the annotation, then pushes the pending TextBegin and reports the end of the file
+   with the TextEnd still pending.  Nothing is lost: the lexemes and the skipped bytes cover the whole input.  The real
+   scanner: harness `lex 55524c202f610a4465736372697074696f6e202f2f2078` -> `0:0:2,1:4:5,0:7:17,2:21:22|eof`. *)
+Definition lost_begin_data : bytes := bs "URL /a" ++ [10] ++ bs "Description // x".
+
+Example lost_begin_at_eof_example :
+  let r := scan no_body no_body lost_begin_data in
+  let lexs := fst (fst r) in
+  snd (fst r) = SEof /\ estk (snd r) = [(TextBegin, 23)] /\ finds (snd r) = [(TextEnd, 22)] /\
+  map (fun l => (lb l, le l)) lexs = [(0, 2); (4, 5); (7, 17); (21, 22)] /\
+  uncovered lexs lost_begin_data = [3; 6; 18; 19; 20] /\
+  forallb (skippedb (consume_trace no_body no_body lost_begin_data) lost_begin_data) (uncovered lexs lost_begin_data) = true.
+Proof. vm_compute. repeat split; reflexivity. Qed.
